@@ -291,6 +291,9 @@ func (t *trzszTransfer) recvPrefixHash(writer fileWriter, srcFile *sourceFile, t
 		}
 
 		step := hash.Step - matchStep
+		if step <= 0 || step > kPrefixHashStep || hash.Step > tgtFile.Size {
+			return simpleTrzszError("Invalid hash step: %d", hash.Step)
+		}
 		buffer := make([]byte, step)
 		n, err := io.ReadFull(file, buffer)
 		if err != nil {
